@@ -57,7 +57,8 @@ def geometry(case, c=None, azimuth=None, tolerance=None, bandwidth=None, model=N
         ang = np.degrees(np.arccos(np.clip(np.abs(u.dot(a)) / n, 0, 1)))
     off = np.abs(u[:, 1] * a[0] - u[:, 0] * a[1])
     sel = ang <= tol / 2.0
-    near = np.abs(ang - tol / 2.0) <= 1e-7
+    # arccos is ill-conditioned near 0 degrees: an exact alignment comes out as ~1e-6 degrees
+    near = np.abs(ang - tol / 2.0) <= 1e-5
     if model == 'triangle':
         bw = bandwidth
         sel = sel & (off <= bw / 2.0)
